@@ -7,7 +7,7 @@ line grammar (all tokens space separated)
            <bs|-> <be|->                           explicit start=/end= of the AnnotationCollection constructor
   COLL  := coll <n> ( <g|f|v> <start> <end> <coding 0|1> <idents|-> <k> ( <gs> <ge> <+|-> )* )*
            child i (0-based) gets guid UUID(int=i+1); its grand-child j gets UUID(int=1000+100*i+j)
-           idents: comma separated, first -> *_id, second -> symbol / name
+           idents: comma separated, first / second identifier attribute in `_identifiers` order
   ops   := qpos SRC COLL <s|N> <e|N> <coding_only> <completely_within> <expand>
            qguid|qig|qtg|qfg SRC COLL <m> <guid number>*
            qfid SRC COLL <m> <identifier>*
@@ -127,7 +127,7 @@ def build(desc):
                                           parent_or_seq_chunk_parent=parent)
             fcs.append(c)
         else:
-            c = VariantIntervalCollection(objs, guid=U(ci + 1), variant_collection_id=id1, variant_collection_name=id2,
+            c = VariantIntervalCollection(objs, guid=U(ci + 1), variant_collection_name=id1, variant_collection_id=id2,
                                           parent_or_seq_chunk_parent=parent)
             vcs.append(c)
         if (c.start, c.end) != (start, end):
@@ -157,7 +157,11 @@ def mseq(g):
 
 
 def show_child(c, dicts):
-    ids = ",".join(sorted(str(x) for x in c.identifiers)) or "-"
+    # the identifier attributes in declaration order (`c.identifiers` is the set of these values)
+    vals = [getattr(c, a) for a in c._identifiers if getattr(c, a) is not None]
+    if set(vals) != set(c.identifiers):
+        raise BadDesc("identifiers")
+    ids = ",".join(str(x) for x in vals) or "-"
     gcs = list(c)
     out = f"{c.guid.int} {KINDCH[c.interval_type.value]} {c.start} {c.end} {ids} {len(gcs)}"
     for g in gcs:
